@@ -1892,6 +1892,173 @@ impl Driver {
         self.drain(8);
     }
 
+    /// Directed schedule aimed at what a node releases between two Readies when its role is the
+    /// same at both (C06, C02): in a two-voter group the leader L removes the other voter F; F is
+    /// cut off the moment the removal commits (it holds the entry, never learns the commit), so
+    /// L becomes the only voter of its own configuration while F still believes in both. F's
+    /// clock runs: it asks L for a vote in a higher term. L's application is slow: the request is
+    /// stepped in and L's clock runs on until it has elected itself again, all before the next
+    /// Ready. That Ready carries the grant for F; it must wait for the vote to be durable. L then
+    /// crashes before writing, restarts and campaigns: if F got the grant, both lead that term.
+    pub fn stranger_vote_at_single_voter(&mut self) {
+        let l = match self.pick_leader() {
+            Some(l) => l,
+            None => return,
+        };
+        if !self.sim.nodes[l].idle() || self.sim.nodes[l].conf.voters.len() != 2 {
+            return;
+        }
+        self.sim.exec(&Action::Heal);
+        self.drain(8);
+        if self.sim.aborted
+            || !self.sim.nodes[l].idle()
+            || !self.sim.nodes[l].raw.as_ref().is_some_and(|r| r.raft.state == StateRole::Leader && !r.raft.has_pending_conf())
+        {
+            return;
+        }
+        if self.knobs.check_quorum {
+            return;
+        }
+        let lid = self.sim.nodes[l].id;
+        let conf = self.sim.nodes[l].conf.clone();
+        if conf.is_joint() || conf.voters.len() != 2 || !conf.voters.contains(&lid) {
+            return;
+        }
+        let fid = *conf.voters.iter().find(|x| **x != lid).unwrap();
+        let f = match self.sim.idx_of(fid) {
+            Some(f) if self.sim.nodes[f].up() && !self.sim.nodes[f].stopped && self.sim.nodes[f].idle() => f,
+            _ => return,
+        };
+        self.sim.mon.stats.inc("c06.stranger_vote_scenarios");
+        let idx = self.sim.nodes[l].raw.as_ref().map(|r| r.raft.raft_log.last_index()).unwrap_or(0) + 1;
+        self.sim.exec(&Action::ProposeConf(l, ConfSpec::V1(ConfChangeType::RemoveNode, fid)));
+        self.stop_when_committed = Some((l, idx));
+        self.drain(10);
+        self.stop_when_committed = None;
+        if self.sim.aborted {
+            return;
+        }
+        let committed = self.sim.nodes[l].raw.as_ref().is_some_and(|r| r.raft.raft_log.committed >= idx);
+        let f_unaware = self.sim.nodes[f].raw.as_ref().is_some_and(|r| r.raft.raft_log.last_index() >= idx && r.raft.raft_log.committed < idx);
+        if !committed || !f_unaware {
+            return;
+        }
+        self.sim.exec(&Action::Isolate(fid));
+        self.sim.net.flights.retain(|x| x.m.to != fid && x.m.from != fid);
+        // L applies the removal: it is the only voter of its own configuration now
+        for _ in 0..3 {
+            self.drain(8);
+        }
+        if self.sim.aborted || !self.sim.nodes[l].idle() {
+            return;
+        }
+        let alone = self.sim.nodes[l].conf.voters.len() == 1
+            && self.sim.nodes[l].conf.voters.contains(&lid)
+            && self.sim.nodes[l].raw.as_ref().is_some_and(|r| r.raft.state == StateRole::Leader);
+        if !alone || self.sim.nodes[f].stopped || !self.sim.nodes[f].up() {
+            self.sim.exec(&Action::Heal);
+            return;
+        }
+        // F's clock runs until it asks for votes
+        let et = self.knobs.election_tick;
+        let mut asked = false;
+        for _ in 0..(3 * et) {
+            if self.sim.aborted {
+                return;
+            }
+            if self.sim.nodes[f].idle() {
+                self.sim.exec(&Action::Tick(f));
+            }
+            // only F's own pipeline runs (its request must be persisted before it leaves)
+            for _ in 0..8 {
+                if !self.sim.exec(&Action::Pipe(f)) {
+                    break;
+                }
+            }
+            self.sim.exec(&Action::Persist(f, false));
+            asked = self.sim.net.flights.iter().any(|x| {
+                x.m.from == fid && x.m.to == lid && x.m.get_msg_type() == MessageType::MsgRequestVote
+            });
+            if asked {
+                break;
+            }
+        }
+        if !asked {
+            self.sim.exec(&Action::Heal);
+            return;
+        }
+        self.sim.exec(&Action::Heal);
+        // the request reaches L; L's application does not get round to a Ready; L's clock runs on
+        let pos = self.sim.net.flights.iter().position(|x| {
+            x.m.from == fid && x.m.to == lid && x.m.get_msg_type() == MessageType::MsgRequestVote
+        });
+        let pos = match pos {
+            Some(p) => p,
+            None => return,
+        };
+        if !self.sim.exec(&Action::Deliver(pos)) {
+            return;
+        }
+        let stepped_down = self.sim.nodes[l].raw.as_ref().is_some_and(|r| r.raft.state == StateRole::Follower && r.raft.vote == fid);
+        if !stepped_down {
+            self.drain(8);
+            return;
+        }
+        self.sim.mon.stats.inc("c06.stranger_vote_granted_by_single_voter");
+        for _ in 0..(2 * et + 2) {
+            if self.sim.aborted {
+                return;
+            }
+            if !self.sim.exec(&Action::Tick(l)) {
+                break;
+            }
+            if self.sim.nodes[l].raw.as_ref().is_some_and(|r| r.raft.state == StateRole::Leader) {
+                break;
+            }
+        }
+        let again = self.sim.nodes[l].raw.as_ref().is_some_and(|r| r.raft.state == StateRole::Leader);
+        if again {
+            self.sim.mon.stats.inc("c06.stranger_vote_then_self_elected_before_ready");
+            // the Ready round up to (not including) the write; then a crash half of the time
+            self.sim.exec(&Action::Pipe(l));
+            self.sim.exec(&Action::Pipe(l));
+            if self.rng.chance(1, 2) && self.sim.nodes[l].up() {
+                self.sim.exec(&Action::Crash(l));
+                // whatever L released travels on
+                for _ in 0..4 {
+                    let p = self.sim.net.flights.iter().position(|x| x.m.to == fid);
+                    match p {
+                        Some(p) => {
+                            if !self.sim.exec(&Action::Deliver(p)) {
+                                break;
+                            }
+                        }
+                        None => break,
+                    }
+                    for _ in 0..8 {
+                        if !self.sim.exec(&Action::Pipe(f)) {
+                            break;
+                        }
+                    }
+                    self.sim.exec(&Action::Persist(f, false));
+                }
+                self.sim.exec(&Action::Restart(l));
+                for _ in 0..(2 * et + 2) {
+                    if self.sim.aborted || !self.sim.nodes[l].up() {
+                        break;
+                    }
+                    if !self.sim.exec(&Action::Tick(l)) {
+                        break;
+                    }
+                    if self.sim.nodes[l].raw.as_ref().is_some_and(|r| r.raft.state == StateRole::Leader) {
+                        break;
+                    }
+                }
+            }
+        }
+        self.drain(10);
+    }
+
     /// Directed schedule for the "superseded leader" clause of C08: cut the leader (with at most
     /// one companion) off, let the majority side elect a new leader and commit, then issue
     /// reads on the stale leader while its side exchanges heartbeats. Only genuine library
@@ -2081,6 +2248,12 @@ pub fn run_exec_focus(seed: u64, profile: Profile, actions: usize, trace_cap: us
         }
         if matches!(profile, Profile::Membership | Profile::Transfer) && d.rng.chance(1, 2) {
             d.missed_change_rejoin();
+            if d.sim.aborted {
+                break;
+            }
+        }
+        if matches!(profile, Profile::Membership | Profile::Election | Profile::Crash | Profile::Singleton) && d.rng.chance(1, 4) {
+            d.stranger_vote_at_single_voter();
             if d.sim.aborted {
                 break;
             }
